@@ -267,6 +267,7 @@ pub fn exec(line: &str) -> String {
             };
             s(&r)
         }
+        "udconst" => s(&UD),
         "mabs" => {
             let n = num!();
             let t = term!();
